@@ -143,7 +143,7 @@ def gen_language(rng: random.Random) -> L:
         add("q", "lambda x: x ** F(_)", params=None, res=None)
     # higher-order
     for _ in range(rng.randint(1, 3)):
-        nf = rng.choice([1, 1, 2])
+        nf = rng.choice([1, 2, 2, 3])
         fps = []
         for _ in range(nf):
             far = rng.choice([1, 1, 2])
@@ -251,7 +251,8 @@ class ExprGen:
                 cands.append(name)
         if not cands:
             return self.leaf(want)
-        name = rng.choice(cands)
+        ho = [c for c in cands if lang.meta[c]["kind"] == "h"]
+        name = rng.choice(ho) if ho and rng.random() < 0.45 else rng.choice(cands)
         m = lang.meta[name]
         k = m["kind"]
         if k == "k":
@@ -386,6 +387,8 @@ def gen_workflow_case(rng, lang: L) -> dict:
             for j in range(kk):
                 if unused and (rng.random() < 0.6 or t == ntools - 1):
                     x = unused.pop(rng.randrange(len(unused)))
+                elif rng.random() < 0.5:
+                    x = rng.choice(res[:nsrc])          # a source (sources get shared between tools)
                 else:
                     x = rng.choice(res)
                 inputs.append(x)
@@ -419,10 +422,13 @@ def gen_workflow_case(rng, lang: L) -> dict:
         used_src = sorted({x for _, _, ins in tools for x in ins if x.startswith("s")})
         if not used_src:
             continue
-        extra = [f"s{i}" for i in range(nsrc) if f"s{i}" not in used_src and rng.random() < 0.3]
+        flags = gen_flags(rng, False)
+        extra = []
+        if flags.get("with_inputs", not flags.get("minimal", False)):
+            # (a declared source that no tool uses only gets a node when with_inputs is on)
+            extra = [f"s{i}" for i in range(nsrc) if f"s{i}" not in used_src and rng.random() < 0.3]
         return {"kind": "workflow", "sources": used_src + extra, "tools": tools,
-                "passthrough": rng.random() < 0.6, "with_vocab": False,
-                "flags": gen_flags(rng, False)}
+                "passthrough": rng.random() < 0.6, "with_vocab": False, "flags": flags}
     return None
 
 
@@ -481,5 +487,13 @@ def fixed_languages():
         {"kind": "workflow", "sources": ["s0"], "passthrough": False, "with_vocab": False, "flags": mini,
          "tools": [["t0", "idx 1", ["s0"]], ["t1", "f (1: B)", ["s0"]], ["t2", "idx 1", ["s0"]],
                    ["t3", "g 1 (g 2 3)", ["t0", "t1", "t2"]]]},
+        # ... without annotation, with a supertype, with a subtype: Workflow.source_types of the
+        # pinned tree makes the source's type depend on the order tool_outputs is iterated in
+        {"kind": "workflow", "sources": ["s0"], "passthrough": True, "with_vocab": False, "flags": full,
+         "tools": [["t0", "f 1", ["s0"]], ["t1", "f (1: A)", ["s0"]], ["t2", "f (1: B)", ["s0"]],
+                   ["t3", "g 1 (g 2 3)", ["t0", "t1", "t2"]]]},
+        {"kind": "workflow", "sources": ["s0", "s1"], "passthrough": False, "with_vocab": False, "flags": mini,
+         "tools": [["t0", "g 1 2", ["s0", "s1"]], ["t1", "idx (1: B)", ["s0"]], ["t2", "g (1: A) (2: B)", ["s0", "s1"]],
+                   ["t3", "m f (g 1) (g 2 3)", ["t0", "t1", "t2"]]]},
     ]
     return [(lang, cases)]
